@@ -25,6 +25,7 @@
 #include <sys/uio.h>
 #include <unistd.h>
 #include <dirent.h>
+#include <sys/file.h>
 
 #define MAXFD 4096
 static char g_prefix[4096];
@@ -221,4 +222,19 @@ int close(int fd) {
     g_fdscope[fd] = 0; g_fdtarget[fd] = 0;
     if (failed) { logline(k, "close", nm, "", -1, fe); errno = fe; return -1; }
     logline(k, "close", nm, "", r, r < 0 ? e : 0); errno = e; return r;
+}
+
+/* ---------------------------------------------------------------- advisory locks (STEP mode only)
+ * A blocking flock() would park the writer inside the kernel where the explorer cannot see it.  In STEP mode the
+ * lock is polled: every failed attempt is a scheduling point "flock-wait", so a writer waiting for a lock is a
+ * visible (disabled) state instead of a hang. */
+int flock(int fd, int op) {
+    REAL(flock);
+    if (g_busy || !(g_mode & 8) || (op & LOCK_NB) || !(op & (LOCK_EX | LOCK_SH))) return real_flock(fd, op);
+    while (1) {
+        int r = real_flock(fd, op | LOCK_NB);
+        if (r == 0) return 0;
+        if (errno != EWOULDBLOCK) return r;
+        step_point("flock-wait", "");
+    }
 }
